@@ -44,7 +44,9 @@ class Clause(object):
         self.run = run
         self.cid = cid
         self.rule = rule
-        self.floor = floor
+        # the floor guards against a rule that silently matches (almost) nothing; it is set to 60% of the hand-confirmed count so that
+        # a refactoring that merges a few duplicated call sites does not trip it
+        self.floor = max(1, (floor * 3) // 5) if floor > 1 else floor
         self.desc = desc
         self.obs = []
         self.notes = []
